@@ -532,5 +532,108 @@ theorem call_total_compact (E : Env) (args : List Value) (hargs : ∀ a ∈ args
   call_total_of_good compactSpec compactType (compactImpl E) rfl (fun _ w _ => by simp [compactType])
     (fun _ _ h ht => implGood_compact E h ht) args hargs
 
+
+/-! ### `chunklist` -/
+
+/-- the chunk loop: every closed chunk is a list of the element type, and the output is not empty
+as soon as there was an element (the last element always closes a chunk: `(i+1) == l`) -/
+theorem chunkLoop_good {e : Ty} (he : Ty.wf e = true) (size l : Nat) :
+    ∀ (rest : List Value) (i : Nat) (chunk output : List Value),
+      (∀ x ∈ chunk, x.ty = e) → (∀ x ∈ rest, x.ty = e) → (∀ o ∈ output, o.ty = .list e) →
+      i + rest.length = l →
+      ∃ out, chunkLoop size l i chunk output rest = .ok out ∧ (∀ o ∈ out, o.ty = .list e) ∧
+        ((output ≠ [] ∨ rest ≠ []) → out ≠ [])
+  | [], i, chunk, output, _, _, ho, _ => ⟨output, rfl, ho, fun h => by simpa using h⟩
+  | v :: rest, i, chunk, output, hc, hr, ho, hl => by
+    simp only [chunkLoop]
+    have hc' : ∀ x ∈ chunk ++ [v], x.ty = e := by
+      intro x hx
+      rcases List.mem_append.mp hx with h | h
+      · exact hc x h
+      · simp only [List.mem_singleton] at h; subst h; exact hr _ List.mem_cons_self
+    have hr' : ∀ x ∈ rest, x.ty = e := fun x hx => hr x (List.mem_cons_of_mem _ hx)
+    split
+    · obtain ⟨ps, hps⟩ := listVal_of_ty he (ws := chunk ++ [v]) (by simp) hc'
+      rw [hps]; dsimp only
+      obtain ⟨out, h1, h2, h3⟩ := chunkLoop_good he size l rest (i + 1) [] (output ++ [⟨.list e, .seq ps⟩])
+        (fun _ h => by cases h) hr' (by
+          intro o ho'
+          rcases List.mem_append.mp ho' with h | h
+          · exact ho o h
+          · simp only [List.mem_singleton] at h; subst h; rfl) (by simp at hl ⊢; omega)
+      exact ⟨out, h1, h2, fun _ => h3 (.inl (by simp))⟩
+    · rename_i hcond
+      have hne : rest ≠ [] := by
+        intro h0
+        subst h0
+        simp only [List.length_cons, List.length_nil] at hl
+        apply hcond
+        simp [hl]
+      obtain ⟨out, h1, h2, h3⟩ := chunkLoop_good he size l rest (i + 1) (chunk ++ [v]) output hc' hr' ho
+        (by simp at hl ⊢; omega)
+      exact ⟨out, h1, h2, fun _ => h3 (.inr hne)⟩
+
+theorem type_total_chunklist {as : List Value} (h : TypeArgsOK nfc chunklistSpec as) (w : String) :
+    chunklistType as ≠ .panic w := by
+  obtain ⟨a, b, rfl, _⟩ := args_inv2 h
+  simp [chunklistType]
+
+theorem implGood_chunklist (E : Env) {as : List Value} {rt : Ty} (h : ImplArgsOK nfc chunklistSpec as)
+    (ht : chunklistType as = .ok rt) : ImplGood rt (chunklistImpl E as rt) := by
+  obtain ⟨a, b, rfl, ha, hb⟩ := args_inv2 h
+  obtain ⟨hka, hna⟩ := arg_known_nonnull ha rfl rfl
+  obtain ⟨hkb, hnb⟩ := arg_known_nonnull hb rfl rfl
+  obtain ⟨haw, ham, hak, han⟩ := arg_unmark ha.toArgOK
+  obtain ⟨hbw, hbm, hbk, hbn⟩ := arg_unmark hb.toArgOK
+  rw [hka] at hak; rw [hna] at han; rw [hkb] at hbk; rw [hnb] at hbn
+  have hda := not_dyn_of_known_nonnull ha.wf hka hna
+  have hdb := not_dyn_of_known_nonnull hb.wf hkb hnb
+  obtain ⟨e, hte⟩ := conform_list_inv (ha.conf hda)
+  have htb : b.ty = .number := conform_number_inv (hb.conf hdb)
+  obtain ⟨x, hx⟩ := wf_number_shape hbw hbm hbk hbn htb
+  simp only [chunklistType] at ht
+  cases ht
+  have htu : a.unmark.ty = .list e := hte
+  have hwl : Ty.wf (.list e) = true := htu ▸ wf_ty_wf haw
+  have hwe : Ty.wf e = true := wf_list_elem hwl
+  have hwll : Ty.wf (.list (.list e)) = true := by simpa [Ty.wf] using hwe
+  obtain ⟨xs, hxs, hlen, _, hxt⟩ := elems_typed E haw ham hak han (by rw [htu]; rfl)
+  have hxt' : ∀ v ∈ xs, v.ty = e := by rw [htu] at hxt; exact hxt
+  simp only [chunklistImpl, hx]
+  rcases fromCtyInt_numVal x with ⟨size, hs⟩ | ⟨c, hc⟩
+  · rw [hs]; dsimp only
+    split
+    · exact implGood_err _ _
+    · rw [hlen]; dsimp only
+      rw [hte]
+      split
+      · refine implGood_withMarkSets _ ?_
+        rw [htu]
+        exact implGood_seq (conform_refl _ hwll) rfl
+      · rename_i hl0
+        split
+        · refine implGood_map_withMarkSets _ ?_
+          obtain ⟨ps, hps⟩ := listVal_of_ty (e := .list e) hwl (ws := [a.unmark]) (by simp)
+            (by intro w hw; simp only [List.mem_singleton] at hw; subst hw; exact htu)
+          rw [hps]
+          exact implGood_seq (conform_refl _ hwll) rfl
+        · rw [hxs]; dsimp only
+          obtain ⟨out, ho, hot, hne⟩ := chunkLoop_good hwe size.toNat xs.length xs 0 [] []
+            (fun _ h => by cases h) hxt' (fun _ h => by cases h) (by simp)
+          rw [ho]; dsimp only
+          refine implGood_map_withMarkSets _ ?_
+          have hxne : xs ≠ [] := by
+            intro h0; apply hl0; simp [h0]
+          obtain ⟨ps, hps⟩ := listVal_of_ty (e := .list e) hwl (hne (.inr hxne)) hot
+          rw [hps]
+          exact implGood_seq (conform_refl _ hwll) rfl
+  · rw [hc]; exact implGood_err _ _
+
+theorem call_total_chunklist (E : Env) (args : List Value) (hargs : ∀ a ∈ args, a.WF nfc = true) :
+    (∀ w, (call chunklistSpec chunklistType (chunklistImpl E) args).1 ≠ .panic w) ∧
+    (∀ w, (call chunklistSpec chunklistType (chunklistImpl E) args).1 ≠ .err (.panicError w)) :=
+  call_total_of_good chunklistSpec chunklistType (chunklistImpl E) rfl (fun _ w h => type_total_chunklist h w)
+    (fun _ _ h ht => implGood_chunklist E h ht) args hargs
+
 end Stdlib
 end CtyModel
